@@ -950,8 +950,10 @@ func (o *ovsdbClient) MonitorAll(ctx context.Context) (MonitorCookie, error) {
 func (o *ovsdbClient) MonitorCancel(ctx context.Context, cookie MonitorCookie) error {
 	var reply ovsdb.OperationResult
 	args := ovsdb.NewMonitorCancelArgs(cookie)
-	o.rpcMutex.Lock()
-	defer o.rpcMutex.Unlock()
+	// the read lock, as for every other call: the request does not change
+	// the connection
+	o.rpcMutex.RLock()
+	defer o.rpcMutex.RUnlock()
 	if o.rpcClient == nil {
 		return ErrNotConnected
 	}
